@@ -29,6 +29,7 @@ type SchedSpec struct {
 	Split          bool
 	PointOnRelease bool
 	JudgeDeadlock  bool // deadlock/hang are violations of this property (C18)
+	Race           bool // run in the -race build: race reports are violations
 	New            func() *SchedInstance
 }
 
@@ -40,11 +41,13 @@ type schedReplay struct {
 
 func (s *SchedSpec) Name() string    { return s.UnitName }
 func (s *SchedSpec) SplitRoot() bool { return s.Split }
+func (s *SchedSpec) UseRace() bool   { return s.Race }
 
 type schedExec struct {
 	res     vsched.Result
 	outcome string
 	viols   []Violation
+	races   []Violation
 }
 
 func (s *SchedSpec) run(prefix []vsched.Choice) schedExec {
@@ -52,6 +55,11 @@ func (s *SchedSpec) run(prefix []vsched.Choice) schedExec {
 	res := vsched.Run(inst.Threads, vsched.Opts{Prefix: prefix, Daemon: inst.Daemon, Ticks: inst.Ticks,
 		PointOnRelease: s.PointOnRelease, Timeout: 60 * time.Second})
 	x := schedExec{res: res}
+	if vsched.RaceBuild {
+		for _, r := range DrainRaceReports() {
+			x.races = append(x.races, Violation{Assert: "race-free", Witness: r.Pair, Detail: r.Text, Once: true})
+		}
+	}
 	if res.Status == vsched.StOK {
 		x.outcome, x.viols = inst.Check(&res)
 		if inst.Close != nil {
@@ -106,7 +114,7 @@ func (s *SchedSpec) explore(c *Ctx, prefix []vsched.Choice, split bool) (childre
 		a.Sample(map[string]any{"unit": s.UnitName, "schedule": renderSchedule(res.Points), "preemptions": res.Preempt, "outcome": x.outcome}, 6)
 	}
 	all := choicesOf(res.Points)
-	for _, v := range x.viols {
+	for _, v := range append(x.viols, x.races...) {
 		v.Prop, v.Unit = s.Prop, s.UnitName
 		if id := c.Known.Match(v); id != "" {
 			a.KnownHits[id]++
@@ -115,7 +123,7 @@ func (s *SchedSpec) explore(c *Ctx, prefix []vsched.Choice, split bool) (childre
 		rp, _ := json.Marshal(schedReplay{Unit: s.UnitName, Choices: all, Outcome: x.outcome})
 		v.Replay = rp
 		v.Stable = true
-		for k := 0; k < 4 && v.Stable; k++ {
+		for k := 0; k < 4 && v.Stable && !v.Once; k++ {
 			y := s.run(all)
 			ok := y.outcome == x.outcome
 			found := false
@@ -183,6 +191,7 @@ func (s *SchedSpec) Replay(c *Ctx, replay json.RawMessage) []Violation {
 		return nil
 	}
 	x := s.run(r.Choices)
+	x.viols = append(x.viols, x.races...)
 	for i := range x.viols {
 		x.viols[i].Prop, x.viols[i].Unit = s.Prop, s.UnitName
 	}
